@@ -1091,6 +1091,13 @@ pub fn cxx_markers(inl: &Desc, ty: &str) -> Vec<&'static str> {
         if decl.parent().is_some() && decl.fields().iter().any(|f| pdlmc_core::rules::is_bitfield(inl, f) && pdlmc_core::rules::bitfield_width(inl, f).map(|w| w % 8 != 0).unwrap_or(false)) {
             rare.push("child-with-sub-octet-fields");
         }
+        let _ = decl;
+        if inl.ancestry(ty).iter().any(|a| a.parent().is_some() && a.payload().is_some() && a.fields().iter().any(|f| !f.is_payload())) {
+            rare.push("child-with-fields-and-own-payload");
+        }
+    }
+    if inl.ancestry(ty).iter().skip(1).any(|a| a.fields().iter().any(|f| matches!(f.kind, FieldKind::Count { .. }))) {
+        rare.push("inherited-counted-array");
     }
     rare
 }
